@@ -114,13 +114,15 @@ def law_reads(d):
                 fails.append(('get_r.mem', 'get_r(mem_read=%s) of %s omits the memory cell %s although the value depends on its content' % (mem_read, build(src), dstr(c)), ('reads', d)))
             elif r != z3.unsat:
                 fails.append(('get_r.mem', None, None))
-    # get_expr_ids
-    if d[0] != 'aff':
+    # get_expr_ids (of an assignment: the identifiers of destination and source)
+    if True:
         from miasmx.expression.expression import get_expr_ids
         e = build(d)
         try:
             got = set((x.name, x.size) for x in get_expr_ids(e))
             want = set((x[1], x[2]) for (x, _) in leaf_ids(d))
+            if d[0] == 'aff':       # of an assignment: the identifiers of the destination too
+                want |= set((x[1], x[2]) for (x, _) in leaf_ids(d[1]))
             if got != want:
                 fails.append(('get_expr_ids', 'get_expr_ids(%s) = %s, identifiers occurring: %s' % (e, sorted(got), sorted(want)), ('reads', d)))
         except Exception as ex:
